@@ -124,6 +124,10 @@ func zzOccursAt(text []rune, pat []rune, at int, cs, norm bool) bool {
 }
 
 func zzInit() {
+	// Init is not idempotent across schemes; start from the package's pristine values so that
+	// consecutive native replays in one process behave like fresh processes.
+	delimiterChars = "/,:;|"
+	initialCharClass = charWhite
 	scheme := "default"
 	switch zzv.CfgInt("scheme") {
 	case 1:
